@@ -569,6 +569,7 @@ def run(ctx: Ctx) -> None:
 
 
 MUTANTS = [
+    ("vm-root-from-pool", POOL, "        if \"shared\" not in scopes or is_vm:\n            cls._get_root(params, object)\n            return", "        if \"shared\" not in scopes:\n            cls._get_root(params, object)\n            return", "8vg"),
     ("root-check-contacts-disabled-shared-pool", POOL, "        if \"shared\" not in params.get_list(\"pool_scope\"):\n            return local_root_exists", "        if params[\"pool_scope\"] == \"own\":\n            return local_root_exists", "8"),
     ("mirror-intersection-restarts-on-empty", POOL, "                if pool_states is None\n", "                if not pool_states\n", "13"),
     ("every-entry-is-a-state", POOL, "states = [p[: -len(format)] for p in states if p.endswith(format)]", "states = [p.replace(format, \"\") for p in states]", "14"),
